@@ -51,9 +51,17 @@ fn main() {
         return;
     }
     std::panic::set_hook(Box::new(|_| {}));
+    let mut panicked = false;
     for prog in src.split("\n;;;===\n") {
         if prog.trim().is_empty() {
             continue;
+        }
+        if panicked {
+            // A panic can leave process-wide state behind (a poisoned JIT lock makes every later
+            // Engine::new() fail): the remaining programs must run in a fresh process.  Exit code 86
+            // tells the driver that everything printed so far is complete.
+            std::io::stdout().flush().ok();
+            std::process::exit(86);
         }
         println!("\u{1e}B");
         std::io::stdout().flush().ok();
@@ -61,6 +69,7 @@ fn main() {
             Ok(e) => e,
             Err(_) => {
                 println!("\n\u{1e}P engine construction panicked");
+                panicked = true;
                 continue;
             }
         };
@@ -94,6 +103,7 @@ fn main() {
                         "?".into()
                     };
                     println!("\n\u{1e}P {}", msg.lines().next().unwrap_or(""));
+                    panicked = true;
                 }
             }
             std::io::stdout().flush().ok();
